@@ -52,7 +52,7 @@ PROPS = {
         TECH,
         "c13_weak_delete_gc_safe / _last_level: for every watermark and every split of a key's version list into (newer outside, compaction input, older outside) that obeys the discipline, the GC stream preserves the discipline and the value read; c13_legacy_stream_violates records F5.",
         "tree-level lifting (which versions of a key form the compaction input) rests on Admissible, monitored on every observed choice; see C01",
-        "7 C13"),
+        "7 C13", modules=["C13", "C13h"]),
     "C17": entry(
         "Compaction filters act exactly as their verdicts say and spare old snapshots",
         [ia("cstream", 3000, 100000), ib("filter", 300, 15000, blob=2, ops=60)],
@@ -73,13 +73,13 @@ PROPS = {
         "7 C02"),
     "C03": entry(
         "Range and prefix scans are exact, ordered and consistent from both ends",
-        [ia("merge", 2000, 100000), ia("mvcc", 2000, 100000), ia("small", 300, 5000), ia("runs", 600, 20000), ib("scan", 400, 20000, blob=2, ops=60), ib("ingest", 300, 10000, blob=2, ops=60), ia("tables", 300, 10000)],
+        [ia("merge", 2000, 100000), ia("mvcc", 2000, 100000), ia("small", 300, 5000), ia("runs", 600, 20000), ib("scan", 400, 20000, blob=2, ops=60), ib("ingest", 300, 10000, blob=2, ops=60), ia("tables", 300, 10000), ia("blockback", 100, 4000)],
         "I-A: Merger and MvccStream under random next/next_back words vs model; prefix_to_range exhaustive over all prefixes of length <= 3 over {00,01,fe,ff} + random, with a membership oracle; Run::range_overlap_indexes for all bound shapes; "
         "I-B: scans with bounds drawn from the key set (incl./excl./unbounded, inverted, empty) and random F/B words at the newest and at held snapshots, over layouts with memtables, several L0 runs, multi-table runs, block size 1..4096; every scan compared with the model AND with the ordered-map oracle; len/is_empty/first/last after every op; non-trivial = >= 1 version-changing compaction and >= 2 flushes",
         TECH,
         "c03_scan_both_ends/_exact/_sorted_unique: for every state, snapshot, bounds, overlay and every word of next/next_back calls the scan equals consuming from both ends the ascending list of newest-visible non-tombstone entries inside the bounds; c03_prefix: prefix range = starts_with for ALL byte strings; merger_both_ends, mvcc_both_ends: the two stream machines equal their specifications for every interleaving.",
         "table-internal iteration (blocks, index) is C12's subject: here a table is its entry list; hypotheses IsSource/DistinctAcross of the scan sources are invariants evaluated on every observed state (inv=)",
-        "7 C03"),
+        "7 C03", modules=["C03", "C12back"]),
     "C05": entry(
         "A crash at any instant recovers to the state before or after the interrupted op",
         [fsi("proto", "std", False, 1, 1), fsi("proto", "std", True, 1, 1), fsi("crash", "short", False, 2, 1, ["--thorough"]), {"args": ["fsinst.py", "crash", "--workload", "std"], "cases": {"quick": 0, "thorough": 0}, "tier_args": {"quick": ["--stride", "40"], "thorough": ["--stride", "1", "--thorough"]}, "timeout": {"quick": 1500, "thorough": 14400}}, fsi("crash", "short", True, 3, 1, ["--thorough"])],
@@ -126,28 +126,28 @@ PROPS = {
         "7 C06"),
     "C10": entry(
         "Corrupted bytes on disk are reported, never served as data",
-        [{"args": ["flip"], "cases": {"quick": 4, "thorough": 12}, "tier_args": {"thorough": ["--thorough"]}}, ia("frames", 600, 20000)],
+        [{"args": ["flip"], "cases": {"quick": 4, "thorough": 12}, "tier_args": {"thorough": ["--thorough"]}}, ia("frames", 600, 20000), ia("archive", 30, 1500)],
         "fault enumeration: for small generated trees (standard and key-value-separated, block size 16/64/4096) EVERY byte of every persisted file (tables, blob files, v<N>, current) is flipped (quick: bit 0; thorough: 4 patterns) and every file is truncated at (quick: every 7th; thorough: every) length, then the tree is opened afresh with an empty cache (half of the trees with partitioned, unpinned index and filter blocks; values of odd and even length) and EVERY read path is judged on its own — forward scan, reverse scan, point reads, first / last key, len, scans at an older snapshot: each must return the original answer or an error (a path that reports the corruption does not excuse another one that silently returns different data); the enumeration runs in a worker process under a supervisor, so a probe that kills the process (fatal signal, failed allocation) or hangs (watchdog) is recorded with its input and the next worker resumes after it; [previous wording:] forward scan, reverse scan, point reads of the whole key universe and a scan at an older snapshot are compared with the unmodified answers: must be identical or an error (panics counted separately); I-A frames: 17 mutation kinds on real block frames / 14 on blob frames decoded by the real readers vs the model with real xxh3 values; non-trivial = distinct (file, offset, pattern) positions",
         "Lean 4 theorems on the frame formats with abstract hash functions (collision witness in the statement) + exhaustive byte-flip / truncation enumeration on real files opened by the real code",
         "c10_block_single_byte / c10_blob_single_byte / c10_version_file_covered / c10_truncation_detected / c10_type_confusion_detected: any single-byte change of a block or blob frame or of the version file is rejected, yields the original, or exhibits an explicit hash collision; truncations and block-type confusion are rejected.",
         "partial: xxh3 is a parameter (no collision-freedom axiom; the disjunct is in the statements); sfa TOC/trailer and the table's region map are exercised by the enumeration, not modelled; blob frame fields seqno / lengths are not covered by a checksum (harmless: value bytes are)",
-        "7 C10"),
+        "7 C10", modules=["C10", "C10file"]),
     "C11": entry(
         "Physical tuning and cache sharing never change logical results",
-        [ia("filters", 600, 20000), ia("tables", 300, 10000), ib("all", 300, 10000, blob=2, ops=50), {"args": ["ib", "core", "--shared-cache", "--ops", "40"], "cases": {"quick": 40, "thorough": 1500}}],
+        [ia("filters", 600, 20000), ia("tables", 300, 10000), ia("ixb", 100, 4000), ib("all", 300, 10000, blob=2, ops=50), {"args": ["ib", "core", "--shared-cache", "--ops", "40"], "cases": {"quick": 40, "thorough": 1500}}],
         "I-A: Bloom filters (bpk / fpr, k 1..34, adversarial hash values incl. wrap-around) and in-block hash indexes built by the real builders vs model (bits, probes, buckets, read plans); tables written with every combination of block size, restart interval, hash ratio, partitioned index / filter, bloom policy, pinning; I-B: histories under randomly drawn physical configurations (block size 1..4096, restart 1/2/16, hash ratio 0/0.75/8, partitioning, pinning, bloom none/bpk/fpr, expect_point_read_hits on/off, compression none / lz4 data blocks / lz4 data + index blocks (and lz4 blobs), cache 0 / 1 KiB / 8 MiB, descriptor table none/1/2/64) all compared with the same configuration-free model and ordered-map oracle; shared-cache groups: the same history on 3 trees with different physical configurations (one of them key-value-separated) that share ONE Cache (0 B .. 8 MiB) and ONE DescriptorTable (none / 1 / 3), alive at the same time with coinciding table ids, each validated against model and oracle",
         TECH,
         "c11_bloom_no_false_negative (every m > 0, k, all 64-bit hashes incl. wrap-around; builder and reader loops proved to probe the same positions), c11_hash_index_sound / _notFound_absent / _found_unique, c11_point_read_absent_sound, c11_cache_key_injective; the logical model has no physical parameters, so agreement of every configuration with it is agreement between configurations.",
         "quick_cache itself and the f32 bucket / bit-count arithmetic are not modelled (taken from the run); cache key injectivity is proved; cache sharing between live trees is additionally exercised by the shared-cache groups",
-        "7 C11"),
+        "7 C11", modules=["C11", "C12ix"]),
     "C12": entry(
         "A table returns every item written to it through every read path",
-        [ia("tables", 600, 30000), ia("filters", 300, 10000)],
+        [ia("tables", 600, 30000), ia("filters", 300, 10000), ia("blockback", 150, 6000), ia("ixb", 120, 5000)],
         "I-A: generated sorted multi-version streams (version slabs straddling block boundaries, tombstones, weak tombstones, long shared prefixes, entries larger than a block, single-entry tables) x writer settings (block size 1..4096, restart interval 1/2/16, hash ratio 0/0.75/8, partitioned index / filter, bloom none/bpk/fpr, global seqno 0/7, pinning) written by the real Writer, recovered by Table::recover; full scan, >= 30 point probes (absent keys between present ones, seqnos around every version), >= 8 ranged scans with random bounds and F/B words, metadata, per-block item counts, index end keys, (hash ratio 0) the BYTES of every data block and the 29 items of the META block (model parse of the real items = recovered fields; model items built from the written stream = real items) compared with the model; independent C12 oracle on the real results; non-trivial = tables with >= 2 data blocks",
         TECH,
         "c12_scan, c12_index, c12_point (incl. version slabs spanning blocks; the seek rule is proved right), c12_get (global seqno shift, early exit, any filter without false negatives), c12_range_both_ends (all bounds, all words), c12_meta (streaming bookkeeping = declarative), c12_filter_complete, c12_block_seek (restart-head jump), c12m_meta_roundtrip / c12m_meta_block_roundtrip / c12m_recovered_meta_declarative (the META block: the 29 recorded properties are read back by recovery exactly, at item and byte level, and equal the declarative facts of the stream), c12_block_codec_roundtrip (varint, full / truncated entries, binary index, trailer) — for every stream, block size and restart interval.",
-        "the byte-level backward / seek decoder and the two-level index are validated by correspondence only; c12_range_both_ends assumes seqno < u64::MAX (the real code skips a block ending in (key, u64::MAX) on a lower-bound seek; unreachable with real sequence numbers)",
-        "7 C12", modules=["C12", "C12m"]),
+        "C12back (byte-level double-ended decoder: backward = reverse, every F/B word, seek / seek_upper through the binary index, agreement with the item-level seek) and C12ix (index-block codec round trip, partition cut rule, two-level = flat for lower bounds and every F/B word over the partition windows, volatile = full) are theorems tied by ia blockback / ia ixb; the two-level = flat statement for a (lo, hi) PAIR, seek followed by mixed pulls and the backward index-block decoder are validated by correspondence only; c12_range_both_ends assumes seqno < u64::MAX (the real code skips a block ending in (key, u64::MAX) on a lower-bound seek; unreachable with real sequence numbers)",
+        "7 C12", modules=["C12", "C12m", "C12back", "C12ix"]),
     "C04": entry(
         "Flushed data survives reopen and reopen restores exactly the flushed state",
         [ib("reopen", 500, 20000, blob=2, ops=50), ib("ingest", 200, 8000, blob=2, ops=50), ia("manifest", 150, 4000)],
@@ -171,7 +171,7 @@ PROPS = {
         TECH,
         "c08_separation_invisible: for every op list (entries value / tombstone, no compaction filter) the run of a key-value-separated tree equals the run of a standard tree up to erasing the indirection tag — same accepted decisions, same point reads, same scans (c08_point_reads, c08_scans); c08_gc_stream_commutes. C08r (relocation matching = drain_blobs + one scanner per rewritten blob file): c08r_fixed_matches_all — for ANY stored seqnos and any interleaving of pointers to different files, every pointer finds exactly its blob provided each file's pointers follow that file's order; c08r_fixed_never_wrong_blob — a success never copies another blob; c08r_legacy_counterexample — the merged scanner of the code before fix 4fe854b fails on finding F9's instance; c08r_legacy_ok_when_orders_agree.",
         "with weak tombstones or compaction filters the simulation is validated by correspondence only (a weak tombstone does not annihilate with an indirection: space, not reads); pointer arithmetic (offsets, blob file bytes) is checked by resolution on the real files, not modelled; the relocation matching model (C08r) is tied to the code at tree level only (every pointer resolved after every real relocation; the F9 histories in corpus/C08), there is no function-level differential for drain_blobs",
-        "7 C08", modules=["C08", "C08r"]),
+        "7 C08", modules=["C08", "C08r", "C08w"]),
     "C09": entry(
         "Blob garbage statistics are exact and only unreferenced blob files are dropped",
         [ib("all", 400, 15000, blob=1, ops=60), ib("reloc", 1500, 40000, blob=1, ops=70), ib("drop", 300, 10000, blob=1, ops=60), ib("filter", 200, 8000, blob=1, ops=60), ia("bigblob", 6, 48)],
